@@ -50,16 +50,23 @@ func init() {
 		"Float64": func(g *G, fr *frame, a []value) value { return g.ex.newInput(a[1].(string), "float64", types.Float64) },
 		// Range: symbolic int in [lo,hi], then case-split to a concrete value
 		"Range": func(g *G, fr *frame, a []value) value {
-			lo, hi := int64(a[2].(int)), int64(a[3].(int))
-			v := g.ex.newInput(a[1].(string), "int", types.Int)
-			s, ok := v.(Sym)
-			if !ok {
-				return v
+			lo, hi := a[2].(int), a[3].(int)
+			name := a[1].(string)
+			ex := g.ex
+			k := ex.seq[name]
+			ex.seq[name] = k + 1
+			full := fmt.Sprintf("%s_%d", sanitize(name), k)
+			var v int
+			if ex.fixed != nil {
+				v = int(int64(ex.fixed[full]))
+			} else {
+				if hi < lo {
+					panic(abortPath{"infeasible", "empty range"})
+				}
+				v = lo + ex.Choose(g, hi-lo+1, name)
 			}
-			c := g.ex.tc
-			g.ex.addPC(c.BVCmp("bvsge", s.T, c.BV(uint64(lo), 64)))
-			g.ex.addPC(c.BVCmp("bvsle", s.T, c.BV(uint64(hi), 64)))
-			return int(int64(g.ex.Concretize(g, s.T)))
+			ex.inputs = append(ex.inputs, inputRec{name: full, kind: "int", conc: uint64(int64(v))})
+			return v
 		},
 		// Choice: free n-way choice (recorded as a concrete input)
 		"Choice": func(g *G, fr *frame, a []value) value {
